@@ -142,7 +142,7 @@ func (w *world) opLine(in opIn) string {
 // only linearizable under relaxation X is reported with a signature naming X.
 type relax struct {
 	recvErr   bool // a receive may answer `err`; the blob may or may not have been stored
-	fetchZero bool // a fetch may answer zero bytes of the blob's length (data of a blob under removal)
+	fetchZero bool // a fetch may answer the blob's bytes with some or all of them replaced by zero (data of a blob under removal): see markZeroed
 	stale     bool // fetch/stat may still answer a blob that was removed (never-received blobs stay absent)
 }
 
@@ -165,8 +165,9 @@ func (w *world) model(rx relax) porcupine.Model {
 			if rx.recvErr && in.Kind == "recv" && o == "err" {
 				return []interface{}{s, nx}
 			}
-			if rx.fetchZero && in.Kind == "fetch" && len(w.pool[in.K].Val) > 0 &&
-				o == "bytes "+hk.Hex(make([]byte, len(w.pool[in.K].Val))) {
+			if rx.fetchZero && in.Kind == "fetch" && o == zeroedMark {
+				// a fetch whose answer was recognised (markZeroed) as the blob's bytes partly or wholly
+				// zeroed by a remove that overlaps / precedes it
 				return []interface{}{s}
 			}
 			if rx.stale && (in.Kind == "fetch" || in.Kind == "stat") && s.ever&(1<<uint(in.K)) != 0 &&
@@ -312,9 +313,12 @@ func (w *world) check(recs []rec, kind string, timeout time.Duration) verdict {
 			}
 		}
 		rs := recs
+		if rx.fetchZero {
+			rs = w.markZeroed(rs)
+		}
 		m := w.model(rx)
 		if split {
-			rs, _ = w.splitEnums(recs)
+			rs, _ = w.splitEnums(rs)
 			m.Partition = partitionByBlob // no enumerate is left: linearizability is local to each blob
 		}
 		switch porcupine.CheckOperationsTimeout(m, toPorc(rs), timeout/4) {
@@ -350,4 +354,100 @@ func partitionByBlob(history []porcupine.Operation) [][]porcupine.Operation {
 		out = append(out, m[k])
 	}
 	return out
+}
+
+// zeroedMark replaces, for the relaxed check only, the answer of a fetch that markZeroed recognised.
+const zeroedMark = "bytes <zeroed-by-remove>"
+
+// zeroedBy reports whether got is want with at least one byte replaced by zero and nothing else changed
+// (diskpacked's remove punches a hole / writes zeros over the body while a reader may be copying it: the
+// reader sees any mixture of old bytes and zeros, of the right length).
+func zeroedBy(want, got []byte) bool {
+	if len(want) != len(got) || len(want) == 0 {
+		return false
+	}
+	changed := false
+	for i := range want {
+		if got[i] != want[i] {
+			if got[i] != 0 {
+				return false
+			}
+			changed = true
+		}
+	}
+	return changed
+}
+
+// markZeroed rewrites the answer of every fetch that (a) returned the blob's bytes partly or wholly
+// zeroed and (b) has a remove of the same blob that started before the fetch ended, with no receive of
+// that blob completed in between (after the remove returned and before the fetch was invoked).
+// Everything else is left as it is, i.e. stays strict.
+func (w *world) markZeroed(recs []rec) []rec {
+	out := append([]rec(nil), recs...)
+	for i, f := range recs {
+		if f.In.Kind != "fetch" || !strings.HasPrefix(f.Out, "bytes ") {
+			continue
+		}
+		got, ok := hk.UnHex(strings.TrimPrefix(f.Out, "bytes "))
+		if !ok || !zeroedBy(w.pool[f.In.K].Val, got) {
+			continue
+		}
+		eligible := false
+		for _, r := range recs {
+			if r.In.Kind != "rm" || r.In.K != f.In.K || r.Call > f.Ret {
+				continue
+			}
+			blocked := false
+			for _, c := range recs {
+				if c.In.Kind == "recv" && c.In.K == f.In.K && strings.HasPrefix(c.Out, "sized") && c.Call > r.Ret && c.Ret < f.Call {
+					blocked = true
+				}
+			}
+			if !blocked {
+				eligible = true
+			}
+		}
+		if eligible {
+			out[i].Out = zeroedMark
+		}
+	}
+	return out
+}
+
+// classifierSelfTest runs the anomaly classifier on three fixed histories over shard(memory, diskpacked):
+// a fetch that overlaps a remove and answers the blob's bytes with a zeroed suffix must be explained by
+// the diskpacked anomaly; the same answer without any remove, and an answer with a non-zero wrong byte,
+// must stay unexplained.  Returns "" when all three verdicts are as expected.
+func classifierSelfTest() string {
+	val := []byte{0x74, 0xec, 0xa4, 0x3d, 0x02, 0xa4, 0xcd, 0x89, 0x5c, 0x81, 0xb7, 0x19, 0x8f, 0x4d, 0xac}
+	pool := []poolBlob{{Ref: "sha224-selftest", Val: val, PN: -1}}
+	w := newWorld(pool)
+	part := append(append([]byte(nil), val[:14]...), 0) // old prefix + zero suffix
+	wrong := append(append([]byte(nil), val[:14]...), 0x01)
+	sz := fmt.Sprintf("sized %d", len(val))
+	mk := func(fetchOut string, withRm bool) []rec {
+		rs := []rec{{Client: 0, In: opIn{Kind: "recv", K: 0}, Call: 1, Ret: 2, Out: sz}}
+		if withRm {
+			rs = append(rs, rec{Client: 1, In: opIn{Kind: "rm", K: 0}, Call: 3, Ret: 6, Out: "ok"})
+		}
+		rs = append(rs, rec{Client: 0, In: opIn{Kind: "fetch", K: 0}, Call: 4, Ret: 5, Out: fetchOut},
+			rec{Client: 0, In: opIn{Kind: "stat", K: 0}, Call: 7, Ret: 8, Out: map[bool]string{true: "notexist", false: sz}[withRm]})
+		return rs
+	}
+	var bad []string
+	for _, kind := range []string{"diskpacked", "shard", "proxy"} {
+		if v := w.check(mk("bytes "+hk.Hex(part), true), kind, 4*time.Second); !(v.res == porcupine.Illegal && len(v.classes) == 1 && v.classes[0] == clsFetchZeroed) {
+			bad = append(bad, fmt.Sprintf("%s: partly zeroed fetch under a concurrent remove: %v %v", kind, v.res, v.classes))
+		}
+		if v := w.check(mk("bytes "+hk.Hex(part), false), kind, 4*time.Second); !(v.res == porcupine.Illegal && v.classes == nil) {
+			bad = append(bad, fmt.Sprintf("%s: partly zeroed fetch without any remove: %v %v", kind, v.res, v.classes))
+		}
+		if v := w.check(mk("bytes "+hk.Hex(wrong), true), kind, 4*time.Second); !(v.res == porcupine.Illegal && v.classes == nil) {
+			bad = append(bad, fmt.Sprintf("%s: fetch with a wrong non-zero byte: %v %v", kind, v.res, v.classes))
+		}
+	}
+	if v := w.check(mk("bytes "+hk.Hex(part), true), "mem", 4*time.Second); !(v.res == porcupine.Illegal && v.classes == nil) {
+		bad = append(bad, fmt.Sprintf("mem: partly zeroed fetch must not be explained: %v %v", v.res, v.classes))
+	}
+	return strings.Join(bad, "; ")
 }
